@@ -272,7 +272,7 @@ def extra_obligations(mods, tier, seed):
            "m.write(b.get_frequency())\nm.write(b.get_last_frequency())\nm.write(b.get_state())\n")
     cpp = Em.emit(P.parse(src))
     ok = all(x in cpp for x in ("__buzzer_current_b", "__buzzer_last_b", "__buzzer_state_b"))
-    out.append({"name": "C16/arms/getters-read-shadow-variables", "status": "discharged" if ok else "sat", "backend": "enum",
+    out.append({"name": "C16/arms/getters-read-shadow-variables", "status": "discharged" if ok else "sat", "backend": "enum", "bounded": True,
                 "where": "get_frequency/get_last_frequency/get_state are the shadow variables the fragments maintain", "time": 0.0,
                 "replay": {"cpp": cpp[-400:]}, "replay_confirmed": not ok})
     # the named tunes are data: the reference for "exactly the named tune's notes" and the default tempi is the score table of the pinned
@@ -301,7 +301,7 @@ def extra_obligations(mods, tier, seed):
         res = pool.map(c8._litvar_one, jobs, chunksize=1)
     for name, verdict, detail, a, b in res:
         okv = verdict in ("same", "rejected")
-        out.append({"name": f"C16/arms/{name}/literal-behaves-like-variable", "status": "discharged" if okv else "sat", "backend": "enum+fwsim",
+        out.append({"name": f"C16/arms/{name}/literal-behaves-like-variable", "status": "discharged" if okv else "sat", "backend": "enum+fwsim", "bounded": True,
                     "where": f"{name}: literal and variable argument give the same tone/delay trace [{verdict}]", "time": 0.2,
                     "replay": {"literal_script": a[-160:], "detail": detail}, "replay_confirmed": not okv})
     # the way an argument is WRITTEN does not matter: the same value written as a name, in parentheses, through abs()/int()/max() or as
